@@ -701,7 +701,7 @@ pub fn run(args: &Args) -> i32 {
                                         // no longer credited with those fragments but still answers for them, and the scan of
                                         // "unindexed" fragments returns the same rows again
                                         "merge-after-partial-schema-merge-finds-target-rows-twice-through-key-index"
-                                    } else if es.contains("Attempt to merge two RecordBatch with different sizes") && ix.is_some() && t.history.iter().any(|h| (h.starts_with("DELETE") || h.starts_with("UPDATE") || h.starts_with("MERGE")) && !h.contains("[rejected")) {
+                                    } else if (es.contains("Attempt to merge two RecordBatch with different sizes") || (es.contains("rowid not found in index") && t.history.iter().any(|h| h.starts_with("DELETE") && !h.contains("[rejected")))) && ix.is_some() && t.history.iter().any(|h| (h.starts_with("DELETE") || h.starts_with("UPDATE") || h.starts_with("MERGE")) && !h.contains("[rejected")) {
                                         // the key index still answers for rows deleted (or rewritten) since it was built; the indexed
                                         // take returns fewer rows than the index mapper promised
                                         "merge-through-key-index-fails-on-index-hits-for-deleted-rows"
